@@ -29,3 +29,20 @@ class MaterialParser(DataParser):
         for node in p.isotope_fraction[1:]:
             ret.append(node)
         return ret
+
+    # a ZAID without a library after ZAIDs with one: m1 6012.70c 1 8017 1
+    @_(
+        "isotope_fractions number_phrase number_phrase",
+        "isotope_hybrid_fractions number_phrase number_phrase",
+    )
+    def isotope_hybrid_fractions(self, p):
+        if isinstance(p[0], syntax_node.IsotopesNode):
+            ret = syntax_node.ListNode("number sequence")
+            for isotope, fraction in p[0].nodes:
+                ret.append(isotope)
+                ret.append(fraction)
+        else:
+            ret = p[0]
+        ret.append(p[1])
+        ret.append(p[2])
+        return ret
